@@ -240,10 +240,18 @@ fn eval_filter_expr(
         let mut filtered = vec![];
         for (position, n) in nodes.into_iter().enumerate() {
             context.push_position(position + 1);
-            if eval_predicate(predicate, n.clone(), context)? {
-                filtered.push(n);
-            }
+            // the position and the size are taken off again before an error is passed on:
+            // the caller may use the context for its next query
+            let selected = eval_predicate(predicate, n.clone(), context);
             context.pop_position();
+            match selected {
+                Ok(true) => filtered.push(n),
+                Ok(false) => {}
+                Err(e) => {
+                    context.pop_size();
+                    return Err(e);
+                }
+            }
         }
         nodes = filtered;
         context.pop_size();
@@ -417,10 +425,18 @@ fn eval_axis_node_test(
         let mut filtered = vec![];
         for (position, n) in nodes.into_iter().enumerate() {
             context.push_position(position + 1);
-            if eval_predicate(predicate, n.clone(), context)? {
-                filtered.push(n);
-            }
+            // the position and the size are taken off again before an error is passed on:
+            // the caller may use the context for its next query
+            let selected = eval_predicate(predicate, n.clone(), context);
             context.pop_position();
+            match selected {
+                Ok(true) => filtered.push(n),
+                Ok(false) => {}
+                Err(e) => {
+                    context.pop_size();
+                    return Err(e);
+                }
+            }
         }
         nodes = filtered;
         context.pop_size();
